@@ -398,6 +398,15 @@ func C09(x *Ctx) []Violation {
 		if ni == 0 {
 			continue
 		}
+		// the mock's own type parameter names are usable: valid identifiers, pairwise distinct, none blank
+		seenTP := map[string]bool{}
+		for j := 0; j < nk; j++ {
+			n := p.KTP.At(j).Obj().Name()
+			if n == "_" || !isValidIdent(n) || seenTP[n] {
+				bad("tparam-names", "mock %s declares type parameter %d as %q (blank, invalid or used twice)", p.Mock, j, n)
+			}
+			seenTP[n] = true
+		}
 		// (a) constraints identical position by position after renaming I's parameters to K's
 		m := map[*types.TypeParam]types.Type{}
 		for j := 0; j < ni; j++ {
